@@ -335,7 +335,11 @@ func ReportElement returns (err)
   ensures @reports-loss [C17] err == nil ==> (sinkFailed[out] ==> old(sinkFailed[out])) && sinkPend[out] == 0
   // C07: one row per (recipe, resolved entry named ElementName) - as many rows as the resolved-book CSV has for that element
   ensures @row-count [C07] err == nil ==> prLen == old(prLen) + rowsN
+  // the rows are taken from the RESOLVED book: RDB is defined to be the book as Resolve leaves it (as in
+  // WithResolvedDatabase), and it is still that book when the rows are collected
+  ghost after call 1 Resolve { assume err == nil ==> DBIs(nl) }
   loop 1 {
+    invariant @book DBIs(nl)
     invariant @count len(names) == #it && arr(names) != 0 && fresh(arr(names)) && nl == at(pre1, nl) && mapval(nl) == at(pre1, mapval(nl)) && (forall k string :: {nl[k]} k in nl ==> nl[k] != nil)
     invariant @copied forall j int :: {names[j]} 0 <= j && j < #it ==> names[j] == #ord[j]
     invariant @untouched bufSink == old(bufSink) && bufSticky == old(bufSticky) && sinkFailed == old(sinkFailed) && sinkPend == old(sinkPend)
@@ -350,6 +354,7 @@ func ReportElement returns (err)
   }
   loop 2 {
     pre { set rbase := store(rbase, 0, 0) }
+    invariant @book DBIs(nl)
     end { let p1 := #i + 1; set rbase := store(rbase, p1, len(list)) }
     invariant @disjoint (arr(list) == 0 || arr(list) >= at(pre2, alloc())) && (forall k string :: {nl[k]} k in nl ==> arr(mapget(nl, k).Elements) < at(pre2, alloc())) && arr(names) < at(pre2, alloc())
     invariant @rows [C07] rbase[0] == 0 && len(list) == rbase[#i] && (forall p int :: {rbase[p]} 0 <= p && p < #i ==> rbase[p + 1] == rbase[p] + CntName(elems(mapget(nl, names[p]).Elements), len(mapget(nl, names[p]).Elements), rec.ElementName))
@@ -359,6 +364,7 @@ func ReportElement returns (err)
   }
   loop 3 {
     pre { unfold CntName(elems(#coll), 0, rec.ElementName) }
+    invariant @book DBIs(nl)
     invariant @rows [C07] rbase[0] == 0 && len(list) == rbase[#i2] + CntName(elems(#coll), #i, rec.ElementName) && (forall p int :: {rbase[p]} 0 <= p && p < #i2 ==> rbase[p + 1] == rbase[p] + CntName(elems(mapget(nl, names[p]).Elements), len(mapget(nl, names[p]).Elements), rec.ElementName)) && elems(#coll) == elems(mapget(nl, names[#i2]).Elements) && len(#coll) == len(mapget(nl, names[#i2]).Elements) && 0 <= #i2 && #i2 < len(names)
     end { let j1 := #i + 1; unfold CntName(elems(#coll), j1, rec.ElementName) }
     invariant @disjoint (arr(list) == 0 || arr(list) >= at(pre2, alloc())) && (forall k string :: {nl[k]} k in nl ==> arr(mapget(nl, k).Elements) < at(pre2, alloc())) && arr(names) < at(pre2, alloc())
@@ -367,6 +373,7 @@ func ReportElement returns (err)
     invariant @untouched bufSink == old(bufSink) && bufSticky == old(bufSticky) && sinkFailed == old(sinkFailed) && sinkPend == old(sinkPend)
   }
   ghost before call 1 NewElementReporter {
+    assert @rows-from-the-resolved-book [C07 C01] DBIs(nl)
     assert @one-row-per-matching-entry [C07] len(list) == rbase[len(names)] && rbase[0] == 0 && (forall p int :: {rbase[p]} 0 <= p && p < len(names) ==> rbase[p + 1] == rbase[p] + CntName(elems(mapget(nl, names[p]).Elements), len(mapget(nl, names[p]).Elements), rec.ElementName))
     set rowsN := len(list)
   }
